@@ -5,7 +5,7 @@ from rules import flp_shape
 from rules.c16 import api_scope, policy, run_api_ppa
 from expr import fmt, walk
 from guards import block_conditions
-from rules.common import calls_named, req, strip, S, clone_faithful
+from rules.common import calls_named, req, strip, S, clone_faithful, adapters_in
 
 INFO = {
     "explanation": "Necessary structural conditions of Prio3's end-to-end correctness, decided on the MIR for the WHOLE parameter lattice "
@@ -187,7 +187,154 @@ def run_bitlength(ctx):
     ctx.floor(rule, 6)
 
 
+def run_values(ctx):
+    """value-shaping code of the honest path whose formulas are short enough to be compared term by term:
+    R-C01.R  the range-check helper offsets every input by exactly 1/num_shares (the field inverse of the share count);
+    R-C01.D  Average::decode_result is sum / num_measurements in f64 with the sum taken through u64 only;
+    R-C01.J  client and aggregators absorb the same schedule into the joint-randomness part."""
+    prog = ctx.prog
+    rule = "R-C01.R"
+    try:
+        f = ctx.fn(rule, name="parallel_sum_range_checks", id_re=r"^flp::types::parallel_sum_range_checks$")
+        g = ctx.guards(f)
+        b = f.body
+        INV = Call("inv", ThroughCasts(Try(Call("valid_integer_try_from", Arg(5)))))
+        inv_direct = lambda e: INV(e) or (e[0] == "call" and str(e[1]).split("::")[-1] == "inv" and Mentions(Call("valid_integer_try_from", Arg(5)))(e)
+                                          and not [x for x in walk(e) if isinstance(x, tuple) and x[0] == "bin"])
+        stores = []
+        for bi, si, st in b.iter_stmts():
+            if st.kind == "assign" and st.place and any(isinstance(pe, tuple) and pe[0] in ("ix", "cix", "i") for pe in st.place[1]) and st.rv is not None:
+                stores.append((bi, g.eb.rvalue(st.rv)))
+        offs = [e for bi, e in stores if Mentions(Call("inv"))(e)]
+        good = len(offs) >= 2 and all((Bin("Sub", Any(), inv_direct)(e) and not Mentions(Call("inv"))(e[2])) or
+                                      (e[0] == "un" and e[1] == "Neg" and inv_direct(e[2])) or (e[0] == "call" and str(e[1]).endswith("neg") and inv_direct(e[2][0]))
+                                      for e in offs)
+        # and the inverse is of the share count itself, not of something derived from it by arithmetic
+        key = "%s:%s:offset-is-inverse-of-num_shares" % (rule, f.id)
+        if good:
+            ctx.ok(rule, key, "every second gadget argument is input - 1/num_shares (padding: -1/num_shares), 1/num_shares = F::from(num_shares).inv()", loc=f.loc)
+        else:
+            ctx.bad(rule, key, "the range-check offset is not the field inverse of num_shares at every store: %s" % [fmt(e)[:100] for e in offs], loc=f.loc)
+        invs = [c for bi, c in calls_named(ctx, f, "inv")]
+        key = "%s:%s:one-inverse" % (rule, f.id)
+        others = [t.callee.name for bi, t in b.calls() if t.callee.name in ("pow", "shr", "shl", "half", "div")]
+        if len(invs) == 1 and not others:
+            ctx.ok(rule, key, "1/num_shares is computed once, by FieldElement::inv", loc=f.loc)
+        else:
+            ctx.bad(rule, key, "1/num_shares is not computed by a single FieldElement::inv (inv calls %d, other arithmetic %s)" % (len(invs), others), loc=f.loc)
+    except Skip:
+        pass
+    ctx.floor(rule, 2)
+
+    rule = "R-C01.D"
+    try:
+        f = ctx.fn(rule, name="decode_result", trait="Type", self_adt="flp::types::Average")
+        g = ctx.guards(f)
+        key = "%s:%s" % (rule, f.id)
+        oks = [rd for rd in g.retdefs if rd.kind == "ok" and rd.payload is not None]
+        errs = [rd for rd in g.retdefs if rd.kind == "err"]
+        good = False
+        detail = ""
+        if len(oks) == 1:
+            e = oks[0].payload
+            detail = fmt(e)[:200]
+            narrow = [x for x in walk(e) if isinstance(x, tuple) and ((x[0] == "cast" and str(x[2]) in ("u8", "u16", "u32", "i8", "i16", "i32", "f32")) or
+                                                                      (x[0] == "call" and ("for u32" in str(x[3]) or "for u16" in str(x[3]) or "for u8" in str(x[3]) or
+                                                                                           "<u32 as" in str(x[3]) or "<f32 as" in str(x[3]))))]
+            good = Bin("Div", Mentions(Call("decode_result", Field(Arg(1), "summer"), Arg(2), Any())), ThroughCasts(Arg(3)))(e) and not narrow and len(errs) == 2
+        if good:
+            ctx.ok(rule, key, "mean = (sum as f64) / (num_measurements as f64), the sum converted through u64 only; two refusals (the sum's, the u64 conversion's)", loc=f.loc)
+        else:
+            ctx.bad(rule, key, "Average::decode_result is not sum/num_measurements in f64 with only the u64 conversion able to refuse: %s (%d Err returns)" % (detail, len(errs)), loc=f.loc)
+    except Skip:
+        pass
+    ctx.floor(rule, 1)
+
+    # joint-randomness part: init(blind, [dst(JOINT_RAND_PART), ctx]); update([agg id]); update(nonce); for every element of the
+    # measurement share { encode into an empty buffer; update(buffer); clear } ; into_seed - the same schedule at every site
+    rule = "R-C01.J"
+    n_sites = 0
+    for fname, kw in (("shard_with_random", dict(name="shard_with_random", self_adt="vdaf::prio3::Prio3", trait="")),
+                      ("verify_init", dict(name="verify_init", trait="Aggregator", self_adt="vdaf::prio3::Prio3"))):
+        try:
+            f0 = ctx.fn(rule, **kw)
+        except Skip:
+            continue
+        # the function and the closures it builds (the leader's part is computed in a closure handed to Option::map)
+        group = [f0] + [x for x in prog.fns if x.id.startswith(f0.id + "::{closure") and x.body is not None]
+        for f in group:
+          g = ctx.guards(f)
+          b = f.body
+          inits = [(bi, c) for bi, c in calls_named(ctx, f, "init") if Mentions(Sym("DST_JOINT_RAND_PART"))(c) or "DST_JOINT_RAND_PART" in fmt(c)]
+          _run_jr_sites(ctx, rule, f, g, b, inits)
+          n_sites += len(inits)
+    ctx.floor(rule, 3)
+
+
+def _run_jr_sites(ctx, rule, f, g, b, inits):
+        n_sites = 0
+        for k, (ibi, ic) in enumerate(inits):
+            n_sites += 1
+            key = "%s:%s:site%d" % (rule, f.id, k)
+            # updates reachable from this init before the matching into_seed, in dominance order
+            ups = [(bi, c) for bi, c in calls_named(ctx, f, "update") if b.dominates(ibi, bi)]
+            seeds = [bi for bi, c in calls_named(ctx, f, "into_seed") if b.dominates(ibi, bi)]
+            if not seeds:
+                ctx.bad(rule, key, "no into_seed after the joint-randomness-part init", loc=f.loc)
+                continue
+            first_seed = min(seeds, key=lambda x: len([y for y in seeds if b.dominates(y, x)]))
+            # only updates on the path init .. first into_seed of THIS xof: same receiver as the init's result
+            mine = [(bi, c) for bi, c in ups if first_seed in b.reach_from(bi) and not any(b.dominates(s2, bi) for s2 in seeds if s2 != first_seed and b.dominates(ibi, s2) and b.dominates(s2, first_seed))]
+            recv = None
+            for bi, c in mine:
+                r0 = c[2][0]
+                if recv is None and r0[0] == "phi":
+                    di = g.eb.init_expr(r0[1])
+                    if di is not None and di == ic:
+                        recv = r0
+            mine = [(bi, c) for bi, c in mine if recv is None or c[2][0] == recv]
+            pre = [(bi, c) for bi, c in mine if g.loop_of(bi) is None or g.loop_of(bi) == g.loop_of(ibi)]
+            inl = [(bi, c) for bi, c in mine if (bi, c) not in pre]
+            problems = []
+            if len(pre) != 2:
+                problems.append("%d updates before the element loop (expected aggregator id, nonce)" % len(pre))
+            else:
+                order = sorted(pre, key=lambda x: 0 if b.dominates(x[0], pre[0][0]) and x[0] != pre[0][0] else 1)
+                a0, a1 = (pre[0], pre[1]) if b.dominates(pre[0][0], pre[1][0]) else (pre[1], pre[0])
+                x0, x1 = a0[1][2][1], a1[1][2][1]
+                if not ((x0[0] == "agg" and x0[1] == "array" and len(x0[2]) == 1) or x0[0] in ("sym", "lit", "symlit")):     # `&[agg_id]` or the promoted `&[0]`
+                    problems.append("the first update is not the one-byte aggregator id")
+                if not (x1[0] in ("param", "upvar")):
+                    problems.append("the second update is not the nonce parameter")
+            if len(inl) != 1:
+                problems.append("%d updates inside loops (expected one per element)" % len(inl))
+            else:
+                ubi, uc = inl[0]
+                buf = uc[2][1]
+                lp = g.loop_of(ubi)
+                class _E:
+                    block = ubi
+                src = ctx.loop_source(f, _E)
+                if src is None or [a for a in adapters_in(src) if a not in ("zip",)]:
+                    problems.append("the element loop iterates an adapted source (%s)" % (fmt(src)[:80] if src else None))
+                encs = [bi for bi, c in calls_named(ctx, f, "encode") if bi in lp[1] and c[2][-1] == buf]
+                clears = [bi for bi, c in calls_named(ctx, f, "clear") if bi in lp[1] and c[2][0] == buf]
+                latches = [t for (t, hh) in b.back_edges() if hh == lp[0]]
+                if len(encs) != 1 or not b.dominates(encs[0], ubi):
+                    problems.append("the element is not encoded into the buffer before the update")
+                if len(clears) != 1 or not b.dominates(ubi, clears[0]) or not all(b.dominates(clears[0], t) for t in latches):
+                    problems.append("the buffer is not cleared after every update (earlier elements would be absorbed again)")
+                inner = [l for l in b.loops().items() if l[0] != lp[0] and l[0] in lp[1] and ubi in l[1]]
+                if inner:
+                    problems.append("the update sits in a nested loop")
+            if problems:
+                ctx.bad(rule, key, "joint-randomness part schedule differs from init; update([id]); update(nonce); per element {encode; update; clear}: %s" % "; ".join(problems), loc=f.loc)
+            else:
+                ctx.ok(rule, key, "init(blind, [dst, ctx]); update([agg id]); update(nonce); per element: encode, update(buffer), clear", loc=f.loc)
+
+
 def run(ctx):
+    run_values(ctx)
     run_bitlength(ctx)
     # a cloned instance is the same instance (VDAF objects are cloned by callers and by the parallel gadget)
     clone_faithful(ctx, "R-C01.CL")
